@@ -243,7 +243,18 @@ def gen_item(run_seed):
 def trunc_items(corpus_idx, stride, phase):
     text = _state['corpus'][corpus_idx]
     items = []
-    for k in range(phase, len(text) + 1, stride):
+    offsets = set(range(phase, len(text) + 1, stride))
+    if stride > 1:
+        # plus every token boundary (right after a token, and right after
+        # the white space that follows it): that is where the reader's
+        # expectation changes, e.g. "...in ring of size " expects a digit
+        import re
+        for m in re.finditer(r'[A-Za-z0-9_]+|[^\sA-Za-z0-9_]', text):
+            offsets.add(m.end())
+            m2 = re.match(r'\s+', text[m.end():])
+            if m2:
+                offsets.add(m.end() + m2.end())
+    for k in sorted(offsets):
         items.append({'id': 't%d.%d' % (corpus_idx, k), 'text': text[:k],
                       'base': 'shipped#%d' % corpus_idx,
                       'faults': [{'kind': 'eof', 'at': k}]})
